@@ -67,6 +67,7 @@ def gen_config(rng, max_vars, rep_choices, allow_none_name=False):
         "buffer": rng.choice([8192, 8192, 8192, 1, 64, None]),
         "progress": rng.choice([None, None, None, "text1", "text2"]),
         "unmark": unmark,
+        "inherited_rules": rng.random() < 0.5,
     }
 
 
@@ -538,7 +539,7 @@ def shrink(plan):
             yield c
     # cosmetics
     for key, simple in (("ext", ""), ("partial_folder", "partial_results"), ("delete_partials", False),
-                        ("buffer", 8192), ("results_name", "res"), ("progress", None), ("unmark", None)):
+                        ("buffer", 8192), ("results_name", "res"), ("progress", None), ("unmark", None), ("inherited_rules", False)):
         if cfg.get(key) != simple and not (key == "results_name" and cfg.get(key) is None):
             c = P()
             c["config"][key] = simple
